@@ -1,2 +1,5 @@
 import Pxv.Model.Body
 import Pxv.Thm.C14
+import Pxv.Model.Session
+import Pxv.Model.SessionSpec
+import Pxv.Thm.C11
